@@ -62,7 +62,9 @@ MIN_COUNTERS = {'sources_compared_with_render': 300, 'sources_in_last_half_pixel
                 'logging_level_pairs_compared': 100, 'cli_runs_with_debug': 3, 'cli_runs_with_debug_effective': 3,
                 'rotated_grid_cases': 10, 'rotated_grid_cases_cd': 6, 'rotated_grid_cases_pc': 1, 'rotated_grid_cases_crota': 1,
                 'rotated_grid_sources_compared': 60, 'rotated_grid_files_checked': 8, 'corner_and_edge_catalogues': 10,
-                'sip_cases': 4, 'sip_sources_compared': 20, 'sip_files_checked': 4, 'sip_far_source_catalogues': 1}
+                'sip_cases': 4, 'sip_sources_compared': 20, 'sip_files_checked': 4, 'sip_far_source_catalogues': 1,
+                'circular_source_catalogues': 5, 'exactly_circular_sources': 40, 'rectangular_pixel_cases': 5,
+                'aegean_written_catalogues': 5, 'aegean_written_catalogues_fits': 3, 'catalogues_stored_as_float32': 3}
 
 TOL_MODEL = 1e-4        # of |peak|, statement
 TOL_LOOP = 1e-3         # of |peak|, statement
@@ -383,6 +385,35 @@ def cases(seed, tier):
             c.update(_header_params(rng, 1600 + t + 3 * rep, wz.PROJECTIONS[(t + 2 * rep) % 5]))
             c['use_cd'] = False
             out.append(c)
+    # rectangular pixels (|CDELT1| != |CDELT2|) with exactly circular sources (a == b) near corners, edges and inside
+    ratios = [1.25, 1.5, 1.4, 0.7, 0.8]
+    for rep in range(1 if q else 4):
+        for t, proj in enumerate(wz.PROJECTIONS):
+            rng = rng_for(seed, 'c14rect', proj, rep)
+            r_ = ratios[(t + rep) % 5] if rep == 0 else float(rng.choice([rng.uniform(1.1, 1.6), rng.uniform(0.65, 0.9)]))
+            c = {'kind': 'model', 'corners': True, 'circular': True, 'nsrc': int(rng.integers(3, 10)), 'pix_ratio': r_,
+                 'seed': [seed, 'rect', proj, rep]}
+            c.update(_header_params(rng, 1800 + t + 5 * rep, proj))
+            f1, f2 = (1.0, 1.0 / r_) if r_ > 1 else (r_, 1.0)                   # both <= 1: the field only shrinks
+            c['cdelt'] = [c['cdelt'][0] * f1, c['cdelt'][1] * f2]
+            c['crval'] = [45.0 + 30.0 * t, 0.0]                                 # dec 0: north is the pixel y axis everywhere
+            out.append(c)
+            if t == 0 and rep % 2 == 0:
+                # the same grid with arbitrary position angles: a known limitation (see _mech_nonsquare), kept in one case
+                c2 = dict(c, generic_pa=True, nsrc=2, seed=[seed, 'rect-generic', proj, rep])
+                out.append(c2)
+    # the catalogue file format as Aegean itself writes it (catalogs.save_catalog -> csv, VOTable, FITS with float32
+    # columns) for arcsec-scale sources on arcsec pixels
+    for rep in range(1 if q else 4):
+        for t, fmt_ in enumerate(['fits', 'fits', 'csv', 'vot', 'fits']):
+            rng = rng_for(seed, 'c14writer', t, rep)
+            c = {'kind': 'files', 'fmt': fmt_, 'writer': 'aegean', 'nsrc': int(rng.integers(4, 16)),
+                 'sigma': [2.5, 4.0, 10.0, 25.0][(t + rep) % 4], 'mask_via_cli': bool((t + rep) % 2 == 0),
+                 'seed': [seed, 'writer', t, rep]}
+            c.update(_header_params(rng, 1900 + t + 5 * rep, wz.PROJECTIONS[(t + rep) % 5]))
+            asec = float(rng.uniform(0.8, 2.5)) / 3600.0                         # arcsec pixels
+            c['cdelt'] = [float(np.sign(c['cdelt'][0])) * asec, asec]
+            out.append(c)
     # SIP distortion (RA---TAN-SIP, conformal quadratic, 0.015-0.04 px at the far corner), compact sources (<= 1.4 beams):
     # the pixel-plane Gaussian AeRes draws equals the sky Gaussian only to first order in the distortion across the source;
     # the remainder was measured to grow linearly with the amplitude (6.9e-5 of the peak at 0.10 px, 2.1e-5 at 0.03 px), so
@@ -548,6 +579,9 @@ def run(case):
             o.count('rotated_grid_cases')
             o.count('rotated_grid_cases_' + case.get('rot_form', 'cd'))
             o.see('grid_rotation_deg', float(case['cd_rot']))
+        if case.get('pix_ratio'):
+            o.count('rectangular_pixel_cases')
+            o.see('pixel_aspect_cdelt1_over_cdelt2', round(abs(case['cdelt'][0] / case['cdelt'][1]), 3))
         if case.get('sip'):
             hdr = _sip_header(hdr, float(case['sip'][0]), float(case['sip'][1]))
             z = SipZenithal(hdr)
@@ -658,6 +692,19 @@ def _model_of(AeRes, o, comps, shape, helper, what, **kw):
     return m
 
 
+def _mech_nonsquare(case, srcs):
+    """predicate over the witness: pixels that are not square (|CDELT1| != |CDELT2| by more than 1 %) and a source whose
+    axes do not lie along the pixel axes: sky2pix_ellipse maps the two semi-axes separately and AeRes draws them
+    perpendicular on the pixel grid, which they are not (an ellipse through a non-conformal map)"""
+    c1, c2 = abs(case['cdelt'][0]), abs(case['cdelt'][1])
+    if abs(c1 / c2 - 1.0) <= 0.01:
+        return None
+    rot = float(case.get('cd_rot') or 0.0)
+    if any(abs(((s_['pa'] + rot) % 90.0 + 45.0) % 90.0 - 45.0) > 1e-3 for s_ in srcs):
+        return 'nonsquare-pixels-oblique-ellipse'
+    return None
+
+
 def _model_of_plain(AeRes, o, comps, shape, helper, what, **kw):
     try:
         return np.asarray(AeRes.make_model(comps, shape, helper, **kw))
@@ -722,6 +769,20 @@ def _run_model(case, o, rng, z, helper, shape, scale_as, AeRes, models):
                 srcs.append({'ra': float(ra), 'dec': float(dec), 'peak': 1.0, 'a': 4.0 * scale_as, 'b': 4.0 * scale_as, 'pa': 0.0,
                              'stratum': 'far'})
             o.count('sip_far_source_catalogues')
+        if case.get('circular'):
+            # exactly circular on the sky (a == b, float-identical): where the local pixel scale is anisotropic
+            # (rectangular pixels here) they are ellipses on the pixel grid
+            for k_, s_ in enumerate(srcs):
+                if k_ % 4 != 3:
+                    s_['a'] = s_['b'] = float(max(s_['b'], 3.0 * 1.02 * max(scale_as, abs(case['cdelt'][0]) * 3600.0)))
+            o.count('circular_source_catalogues')
+            o.count('exactly_circular_sources', sum(1 for s_ in srcs if s_['a'] == s_['b']))
+        if case.get('pix_ratio') and not case.get('generic_pa'):
+            # non-square pixels: AeRes draws an ellipse whose axes are perpendicular on the pixel grid, which is the image of
+            # the sky ellipse only when its axes lie along the pixel axes - the domain of this stratum: position angles
+            # that are multiples of 90 deg on a rotation-free grid at dec 0 (meridian convergence < 0.002 deg)
+            for s_ in srcs:
+                s_['pa'] = float(rng.choice([0.0, 90.0, 180.0, -90.0]))
         if compact:
             # the 1e-4 comparison holds to first order in the distortion across a source: keep the sources compact
             beam = 4.0 * scale_as
@@ -793,7 +854,7 @@ def _run_model(case, o, rng, z, helper, shape, scale_as, AeRes, models):
         if not worst <= TOL_MODEL:
             p = np.unravel_index(int(np.argmax(err)), err.shape)
             o.violate('model_vs_render', dict(wit, worst_rel_peak=worst, at_index=[int(p[0]), int(p[1])],
-                                              model=float(m[p]), reference=float(ref[p])))
+                                              model=float(m[p]), reference=float(ref[p])), _mech_nonsquare(case, [s]))
     o.n_nontrivial += nontriv
     # additivity: model(A u B) = model(A) + model(B), and = sum of the single-source models
     ok = [k for k, m in enumerate(singles) if m is not None and m.shape == shape]
@@ -828,7 +889,7 @@ def _run_model(case, o, rng, z, helper, shape, scale_as, AeRes, models):
                                                         'reference': float(ref_sum[p]), 'tolerance': float(tol_sum[p]),
                                                         'n_sources': len(comps), 'shared_shape': case.get('shared'),
                                                         'first_source': {kk: srcs[0][kk] for kk in ('ra', 'dec', 'peak', 'a', 'b', 'pa')},
-                                                        'header': _hdr_witness(case)})
+                                                        'header': _hdr_witness(case)}, _mech_nonsquare(case, srcs))
             for name, other in others:
                 o.count('additivity_comparisons')
                 o.n_eval += 1
@@ -930,15 +991,16 @@ def _read(path):
         return np.array(h[0].data)
 
 
-def _cli_mask(o, wit, img, cat, rfile, sigma, debug=False):
+def _cli_mask(o, wit, img, cat, rfile, sigma, debug=False, colmap=None):
     """the AeRes command line: --mask --sigma S with frac unset and the renamed columns"""
     import logging
     from AegeanTools.CLI import AeRes as cli
     root = logging.getLogger()
     level, handlers = root.level, list(root.handlers)
-    argv = ['-c', cat, '-f', img, '-r', rfile, '--mask', '--sigma', repr(sigma), '--racol', COLMAP['ra_col'],
-            '--deccol', COLMAP['dec_col'], '--peakcol', COLMAP['peak_col'], '--acol', COLMAP['a_col'],
-            '--bcol', COLMAP['b_col'], '--pacol', COLMAP['pa_col']]
+    cm = colmap or COLMAP
+    argv = ['-c', cat, '-f', img, '-r', rfile, '--mask', '--sigma', repr(sigma), '--racol', cm['ra_col'],
+            '--deccol', cm['dec_col'], '--peakcol', cm['peak_col'], '--acol', cm['a_col'],
+            '--bcol', cm['b_col'], '--pacol', cm['pa_col']]
     o.count('mask_files_via_cli')
     sink = old_stderr = None
     if debug:
@@ -1001,7 +1063,41 @@ def _run_files(case, o, rng, z, hdr, shape, scale_as, AeRes, tmp):
             s['peak'] = s['peak'] * (40.0 / typ0)
     rms = [s['peak'] * float(rng.uniform(0.01, 0.5)) / sigma for s in srcs]
     cat = os.path.join(tmp, 'cat.' + fmt)
-    _write_catalogue(cat, srcs, fmt, rms)
+    colmap = dict(COLMAP)
+    if case.get('writer') == 'aegean':
+        # the catalogue as Aegean writes it (catalogs.save_catalog: FITS tables store every float as float32 'E'), given
+        # back to make_residual / the command line in that format.  The expected image is rendered from the values AS
+        # STORED in the file (read back with astropy.table, widened exactly to float64), so 1e-4 of the peak is decidable.
+        from astropy.table import Table
+        from AegeanTools import catalogs, models as models_
+        comps_ = [_component(models_, s_, k_, rms=r_) for k_, (s_, r_) in enumerate(zip(srcs, rms))]
+        for c_ in comps_:                       # the sexagesimal strings are not read by AeRes; any non-empty text does
+            c_.ra_str, c_.dec_str = '%012.8f' % c_.ra, '%+012.8f' % c_.dec
+        catalogs.save_catalog(cat, comps_)
+        cat = os.path.join(tmp, 'cat_comp.' + fmt)
+        if not os.path.exists(cat):
+            raise RuntimeError('harness: catalogs.save_catalog wrote no %s' % cat)
+        colmap = {'ra_col': 'ra', 'dec_col': 'dec', 'peak_col': 'peak_flux', 'a_col': 'a', 'b_col': 'b', 'pa_col': 'pa'}
+        tb = Table.read(cat, format={'csv': 'ascii.csv', 'fits': 'fits', 'vot': 'votable'}[fmt])
+        if len(tb) != len(srcs):
+            raise RuntimeError('harness: catalogue read back with %d rows, wrote %d' % (len(tb), len(srcs)))
+        o.see('aegean_written_catalogue_column_dtype', '%s:%s' % (fmt, tb['a'].dtype.str))
+        stored_single = tb['a'].dtype.itemsize == 4
+        worst_q = 0.0
+        for k_, s_ in enumerate(srcs):
+            for key, col in (('ra', 'ra'), ('dec', 'dec'), ('peak', 'peak_flux'), ('a', 'a'), ('b', 'b'), ('pa', 'pa')):
+                v = float(np.float64(tb[col][k_]))
+                if key in ('a', 'b'):
+                    worst_q = max(worst_q, abs(v - s_[key]) / s_[key])
+                s_[key] = v
+            rms[k_] = float(np.float64(tb['local_rms'][k_]))
+        o.count('aegean_written_catalogues')
+        o.count('aegean_written_catalogues_' + fmt)
+        if stored_single:
+            o.count('catalogues_stored_as_float32')
+            o.worst('float32_storage_relative_change_of_axes', worst_q)
+    else:
+        _write_catalogue(cat, srcs, fmt, rms)
     typ = float(np.median([s['peak'] for s in srcs]))
     data = (rng.normal(0.0, 0.05 * typ, shape)).astype(np.float32)
     img = os.path.join(tmp, 'img.fits')
@@ -1028,13 +1124,13 @@ def _run_files(case, o, rng, z, hdr, shape, scale_as, AeRes, tmp):
     ref = np.sum(refs, axis=0) if refs else np.zeros(shape)
     tol_model = sum((TOL_MODEL * abs(s['peak'])) * (r != 0) + 4e-6 * abs(s['peak']) for (s, _), r in zip(inimg, refs)) \
         if refs else np.zeros(shape)
-    wit = {'fmt': fmt, 'colmap': COLMAP, 'n_sources': len(srcs), 'sigma': sigma, 'mask_via_cli': bool(case.get('mask_via_cli')),
+    wit = {'fmt': fmt, 'colmap': colmap, 'catalogue_writer': case.get('writer', 'astropy.table'), 'n_sources': len(srcs), 'sigma': sigma, 'mask_via_cli': bool(case.get('mask_via_cli')),
            'input_pixel_type': pixtype, 'debug_logging': bool(case.get('debug_logging')), 'cli_debug': bool(case.get('cli_debug')),
            'header': _hdr_witness(case)}
 
     def call(what, rfile, **kw):
         try:
-            AeRes.make_residual(kw.pop('image', img), cat, rfile, colmap=dict(COLMAP), **kw)
+            AeRes.make_residual(kw.pop('image', img), cat, rfile, colmap=dict(colmap), **kw)
         except Exception as e:
             o.n_eval += 1
             o.violate('raises', dict(wit, where='AeRes.make_residual ' + what, exc=repr(e),
@@ -1093,7 +1189,8 @@ def _run_files(case, o, rng, z, hdr, shape, scale_as, AeRes, tmp):
             okc = call('mask frac', r_m, mask=True, frac=frac)
         elif case.get('mask_via_cli'):
             thr = [sigma * r for _, r in inimg]
-            okc = _cli_mask(o, wit, img, cat, r_m, sigma, debug=bool(case.get('cli_debug') or case.get('debug_logging')))
+            okc = _cli_mask(o, wit, img, cat, r_m, sigma, debug=bool(case.get('cli_debug') or case.get('debug_logging')),
+                            colmap=colmap)
         else:
             thr = [sigma * r for _, r in inimg]
             okc = call('mask sigma', r_m, mask=True, sigma=sigma)
